@@ -212,3 +212,69 @@ Qed.
 (* finite tables: decision helpers *)
 Lemma existsb_witness {A} (f : A -> bool) l : existsb f l = true -> exists x, In x l /\ f x = true.
 Proof. apply existsb_exists. Qed.
+
+(* ------------------------------------------------------------------ catalogue membership of a mapped error (table-generic) *)
+Section Cat.
+  Context {A : Type}.
+  Variable cat : list (string * A).
+
+  Fixpoint cat_lookup (k : string) (l : list (string * A)) : option A :=
+    match l with
+    | [] => None
+    | (k', v) :: t => if String.eqb k k' then Some v else cat_lookup k t
+    end.
+
+  Definition in_cat (e : exn) : bool :=
+    match e with VTL _ c => match cat_lookup c cat with Some _ => true | None => false end | _ => false end.
+
+  Lemma in_cat_sound e : in_cat e = true -> exists k c, e = VTL k c /\ cat_lookup c cat <> None.
+  Proof.
+    destruct e as [k c| |]; simpl; try discriminate.
+    intros H. exists k, c. split; [reflexivity|]. destruct (cat_lookup c cat); [discriminate | discriminate].
+  Qed.
+
+  Definition lit_ok (M : stage -> mapper) (x : string * stage * string) : bool :=
+    in_cat (apply_mapper (M (snd (fst x))) (RawDB (snd x))).
+
+  Lemma lits_all_ok (M : stage -> mapper) (lits : list (string * stage * string)) :
+    forallb (lit_ok M) lits = true ->
+    forall site s msg, In (site, s, msg) lits ->
+    exists k c, apply_mapper (M s) (RawDB msg) = VTL k c /\ cat_lookup c cat <> None.
+  Proof.
+    intros H site s msg Hin. rewrite forallb_forall in H. specialize (H _ Hin).
+    unfold lit_ok in H. cbn [fst snd] in H. apply in_cat_sound. exact H.
+  Qed.
+
+  (* `excl`: a decidable exclusion on the message (the literals known to have no rule) *)
+  Lemma lits_handled_ok (M : stage -> mapper) (excl : string -> bool) (lits : list (string * stage * string)) :
+    forallb (fun x => mapper_eqb (M (snd (fst x))) NoMap || excl (snd x) || lit_ok M x) lits = true ->
+    forall site s msg, In (site, s, msg) lits -> M s <> NoMap -> excl msg = false ->
+    exists k c, apply_mapper (M s) (RawDB msg) = VTL k c /\ cat_lookup c cat <> None.
+  Proof.
+    intros H site s msg Hin Hm He. rewrite forallb_forall in H. specialize (H _ Hin). cbn [fst snd] in H.
+    rewrite He in H. rewrite orb_false_r in H.
+    apply orb_true_iff in H. destruct H as [H|H].
+    - exfalso. apply Hm. destruct (M s); simpl in H; try discriminate; reflexivity.
+    - unfold lit_ok in H. cbn [fst snd] in H. apply in_cat_sound. exact H.
+  Qed.
+
+  Lemma lits_norule (M : stage -> mapper) (lits : list (string * stage * string)) :
+    existsb (fun x => negb (mapper_eqb (M (snd (fst x))) NoMap) && negb (is_vtl (apply_mapper (M (snd (fst x))) (RawDB (snd x))))) lits = true ->
+    exists site s msg, In (site, s, msg) lits /\ M s <> NoMap /\ is_vtl (apply_mapper (M s) (RawDB msg)) = false.
+  Proof.
+    intros H. apply existsb_exists in H. destruct H as [[[site s] msg] [Hin Hb]]. cbn [fst snd] in Hb.
+    apply andb_true_iff in Hb. destruct Hb as [Hm Hv]. apply negb_true_iff in Hm, Hv.
+    exists site, s, msg. split; [exact Hin|]. split; [|exact Hv].
+    intros E. rewrite E in Hm. discriminate.
+  Qed.
+
+  Lemma lits_escape (M : stage -> mapper) (lits : list (string * stage * string)) :
+    existsb (fun x => mapper_eqb (M (snd (fst x))) NoMap && negb (is_vtl (apply_mapper (M (snd (fst x))) (RawDB (snd x))))) lits = true ->
+    exists site s msg, In (site, s, msg) lits /\ M s = NoMap /\ apply_mapper (M s) (RawDB msg) = RawDB msg.
+  Proof.
+    intros H. apply existsb_exists in H. destruct H as [[[site s] msg] [Hin Hb]]. cbn [fst snd] in Hb.
+    apply andb_true_iff in Hb. destruct Hb as [Hm _].
+    exists site, s, msg. split; [exact Hin|].
+    destruct (M s) eqn:E; simpl in Hm; try discriminate. split; reflexivity.
+  Qed.
+End Cat.
